@@ -110,3 +110,10 @@ check(
     "k-means++ seeding, sample weights, sparse input and float32 rounding are outside; scikit-learn's distance functions are an SX model (validated); equality with KMeans beyond delegation is scikit-learn's.",
     "DESIGN.md 3.C06",
 )
+check(
+    "C02",
+    "bounded symbolic execution (SX, z3 LIA/LRA) with a symbolic fault schedule: every collaborator call site raises iff its symbolic Bool is true; symbolic hyper-parameters; concrete-mode replay of the same scenario",
+    "For ConstraintKMeans.fit (symbolic max_iter in [1,1000], kmeans0 on/off, both strategies), PiecewiseTreeRegressor.fit (three criteria), PiecewiseRegressor.fit and IntervalRegressor.fit (each of 3 local models/members failing or not), QuantileLinearRegression.fit (each of 2 inner solves failing or not) and score, TransformedTargetRegressor2/Classifier2, PredictableTSNE and KMeansL1L2: on EVERY path, failing or not, get_params(deep) is what it was, the caller's X/y/sample_weight cells are untouched, the estimator parameter objects are never fitted (clones are), a normal fit returns self, and after a failed fit a fault-free fit hands the parent class what a fresh clone would; score twice agrees and leaves float64 weights intact; predict leaves parameters and data intact.",
+    "Collaborators are stubs raising on their fault flag (real triggers such as NaN input are represented by them); estimators not listed are outside; rows 2-8.",
+    "DESIGN.md 3.C02",
+)
